@@ -137,6 +137,19 @@ class Runner:
         self.a = Aspire(log_likelihood=log_likelihood, log_prior=log_prior, dims=2, parameters=["a", "b"],
                         flow=AnalyticFlow(2, kind="normal", seed=1), flow_backend="pbt_analytic", xp=xp)
 
+        # handlers created up front (before any context is entered), as with contextlib.ExitStack or a handler kept in a variable
+        self.prebuilt = {}
+
+        def prebuild(items):
+            for it in items:
+                if "ctx" in it:
+                    if it.get("prebuilt") and it["ctx"] == "pool":
+                        pool = FakePool()
+                        self.prebuilt[it["pid"]] = (pool, self.a.enable_pool(pool, close_pool=it["close_pool"], parallelize_prior=it["parallelize_prior"]))
+                    prebuild(it.get("body", []))
+
+        prebuild(case["tree"])
+
     def close(self):
         shutil.rmtree(self.tmp, ignore_errors=True)
 
@@ -173,7 +186,9 @@ class Runner:
         before = _snap(a)
         pool = None
         if node["ctx"] == "pool":
-            if node.get("shared"):
+            if node.get("prebuilt"):
+                pool, cm_pre = self.prebuilt[node["pid"]]
+            elif node.get("shared"):
                 # one pool object used by several (nested or consecutive) contexts of this instance
                 if self.shared_pool is None:
                     self.shared_pool = FakePool()
@@ -181,7 +196,7 @@ class Runner:
             else:
                 pool = FakePool(node.get("pool_fault"))
             pre_exit = None
-            cm = a.enable_pool(pool, close_pool=node["close_pool"], parallelize_prior=node["parallelize_prior"])
+            cm = cm_pre if node.get("prebuilt") else a.enable_pool(pool, close_pool=node["close_pool"], parallelize_prior=node["parallelize_prior"])
         else:
             cm = a.auto_checkpoint(os.path.join(self.tmp, f"f{node.get('path', 0)}.h5"), every=node["every"],
                                    save_config=node["save_config"], save_flow=node["save_flow"])
@@ -292,6 +307,11 @@ def extra(tier, ctx, seed):
                         n += 1
     pools = [v for v in VARIANTS if v["ctx"] == "pool"]
     for v1, v2 in itertools.product(pools, repeat=2):
+        # both handlers created before either is entered, then entered nested
+        tree = [dict(v1, prebuilt=True, pid=0, body=[dict(v2, prebuilt=True, pid=1, body=[{"do": "noop"}])])]
+        for fault_at in [None] + list(range(_count_points(tree))):
+            ctx.cell({"tree": tree, "fault_at": fault_at, "fault_kind": "exception", "part": "exhaustive-prebuilt-handlers"}, run_case)
+            n += 1
         nested = [dict(v1, shared=True, body=[dict(v2, shared=True, body=[{"do": "noop"}])])]
         consecutive = [dict(v1, shared=True, body=[{"do": "noop"}]), dict(v2, shared=True, body=[{"do": "noop"}])]
         for tree in (nested, consecutive):
